@@ -463,7 +463,6 @@ def gen_cases(rng, tier):
         # exhaustive small scope: every target x every pair of wrappers from a fixed list, both modes
         W = [lambda e: e, lambda e: ("app", EV_EVAL, Q(e)), lambda e: ("app", EV_VALUE, Q(e)),
              lambda e: ("app", EV_EVAL, Q(e, "RBytes")), lambda e: ("app", EV_VALUE, Q(e, "RBytes")),
-             lambda e: ("app", EV_VALUE, Q(e, "ROffsetString")),
              lambda e: ("app", evaluator(tup(("stdlib", tup()))), Q(e)), lambda e: ("macro", e),
              lambda e: ("fn", "y", e), lambda e: ("app", e, DATA), lambda e: ("dot", tup(("a", e)), "a"),
              lambda e: ("app", evaluator(tup(("stdlib", tup(("eval", std("eval")), ("os", std("os")))))), Q(e, "RBytes"))]
